@@ -196,6 +196,10 @@ func runC06(args []string) error {
 		}
 		one("201", 459, 888, 16, 16, 1, 0, paramSpec{Kind: "nil"}, "noise")
 	}
-	fmt.Printf("c06: scenarios=%d grid=%d events=%d\n", scn, nGrid, t.n)
+	nfix, err := c06Fixtures(t, &scn)
+	if err != nil {
+		return fmt.Errorf("third-party fixtures: %v", err)
+	}
+	fmt.Printf("c06: scenarios=%d grid=%d fixtures=%d events=%d\n", scn, nGrid, nfix, t.n)
 	return nil
 }
